@@ -1175,7 +1175,7 @@ func TestVerifC12(t *testing.T) {
 		os.Remove(verifC12ConfFile())
 	}()
 	verifutil.Main(t, &verifutil.Harness{
-		ID: "C12", Exec: verifC12Exec, Gen: verifC12Gen, Quick: 150, Thorough: 3000,
+		ID: "C12", Exec: verifC12Exec, Gen: verifC12Gen, Quick: 120, Thorough: 3000,
 		Class: func(op, impl string) string {
 			w := op
 			if i := strings.IndexByte(op, ' '); i >= 0 {
